@@ -154,6 +154,7 @@ func cmdCheck(args []string) int {
 	cfg := &solveCfg{dir: dir, quickS: 3, timeoutS: 20, workers: 14, keep: *keep}
 	if *tier == "thorough" {
 		cfg.quickS, cfg.timeoutS = 10, 120
+		cfg.crossCheck = true
 	}
 	ts := time.Now()
 	solveAll(cfg, frs)
